@@ -763,6 +763,7 @@ func c12(args []string) {
 	h.csvSubFields()
 	h.validatorAcrossSequences()
 	h.unscaledAnd64()
+	h.scaled64()
 	if *accPath != "" {
 		h.accessors(*accPath, thorough)
 	} else {
@@ -999,6 +1000,48 @@ func (h *c12Run) unscaledAnd64() {
 		}
 		h.genericCase(ops, 1, 0, bnd, seed, 300)
 		stat("unscaled_points", len(xs))
+	}
+}
+
+// the 64-bit element types under the scale / offset pairs of the profile (no profile field has them, the helpers accept them):
+// raw values below 2^32 come back exactly through every Discard* form, scalar and slice (the rounding helper covers every
+// integer element type; the values are inside the range of the 32-bit theorem)
+func (h *c12Run) scaled64() {
+	pairs := [][2]float64{{100, 0}, {1000, 0}, {5, 500}, {2, 0}, {10, 0}, {128, 0}, {1000, 0}, {16, 0}, {4, 0}, {25, 0}}
+	for _, bt := range []basetype.BaseType{basetype.Sint64, basetype.Uint64, basetype.Uint64z} {
+		ops := c12OpsByBase[bt]
+		for _, so := range pairs {
+			t := c12Triple{bt: bt, s: so[0], o: so[1]}
+			xs := []int64{0, 1, 2, 28, 29, 57, 58, 113, 114, 1000, 65535, 65536, 1<<31 - 1, 1 << 31, 1<<32 - 1}
+			xs = append(xs, c12GenValues(false, 32, h.r.u64(), 200)...)
+			if ops.signed {
+				for _, x := range []int64{-1, -29, -57, -113, -65535, -(1 << 31)} {
+					xs = append(xs, x)
+				}
+			}
+			for _, x := range xs {
+				h.nEval++
+				v := ops.apply(x, so[0], so[1])
+				if r, ok := ops.fromVal(scaleoffset.DiscardValue(proto.Float64(v), bt, so[0], so[1])); !ok || r != x {
+					h.report("FAIL", "RValue", t, x, r, x, map[string]any{"kind": "DiscardValue(scalar float64) on a 64-bit target"})
+					break
+				}
+				sv := scaleoffset.DiscardValue(proto.SliceFloat64([]float64{v, v}), bt, so[0], so[1])
+				if rs, ok := ops.fromSVal(sv); !ok || len(rs) != 2 || rs[0] != x || rs[1] != x {
+					h.report("FAIL", "RValue", t, x, -1, x, map[string]any{"kind": "DiscardValue([]float64) on a 64-bit target", "got": fmt.Sprint(rs)})
+					break
+				}
+				if r, ok := ops.fromAny(scaleoffset.DiscardAny(v, bt, so[0], so[1])); !ok || r != x {
+					h.report("FAIL", "RAny", t, x, r, x, map[string]any{"kind": "DiscardAny(float64) on a 64-bit target"})
+					break
+				}
+				if rs := ops.discSl([]float64{v}, so[0], so[1]); len(rs) != 1 || rs[0] != x {
+					h.report("FAIL", "RSliceGeneric", t, x, rs[0], x, map[string]any{"kind": "DiscardSlice on a 64-bit element type"})
+					break
+				}
+			}
+			stat("scaled_64bit_points", len(xs))
+		}
 	}
 }
 
